@@ -119,22 +119,27 @@ theorem run_all_next {step : S → Stanza → Step S α} (Q : Stanza → Prop)
     have := ih s' (fun x hx => hall x (List.mem_cons_of_mem _ hx))
     exact ⟨this.1, by simp [this.2]⟩
 
-/-- the plugin's error text is returned only for an `error` message, whose
-    acknowledgement `ok` is then the last thing written -/
+/-- the plugin's error text is returned only for an `error` message that the
+    loop reached while still listening, whose acknowledgement `ok` is then the
+    last thing written: the converse of `run_halt_when_listening` for `error` -/
 theorem run_pluginError {step : S → Stanza → Step S α}
     (hH : ∀ s m rs res, step s m = .halt rs res →
       (∀ t, res ≠ .error (.pluginError t)) ∨ (rs = [okS] ∧ res = .error (.pluginError m.body) ∧ m.type = "error"))
     (s : S) (msgs : List Stanza) (e : End) (t : Bytes)
     (h : (run step s msgs e).result = .error (.pluginError t)) :
-    (∃ init, (run step s msgs e).replies = init ++ [okS]) ∧ ∃ m ∈ msgs, m.type = "error" ∧ m.body = t := by
+    ∃ pre m post, msgs = pre ++ m :: post ∧ m.type = "error" ∧ m.body = t ∧
+      ∀ e₀, (run step s pre e₀).result = .error (.ended e₀) ∧
+        (run step s msgs e).replies = (run step s pre e₀).replies ++ [okS] := by
   induction msgs generalizing s with
   | nil => simp [run] at h
   | cons m rest ih =>
     cases hs : step s m with
     | next s' r =>
       rw [run_cons_next hs] at h ⊢
-      obtain ⟨⟨init, hi⟩, x, hx, hxt, hxb⟩ := ih s' h
-      exact ⟨⟨r :: init, by simp [hi]⟩, x, List.mem_cons_of_mem _ hx, hxt, hxb⟩
+      obtain ⟨pre, x, post, hsplit, hxt, hxb, hl⟩ := ih s' h
+      refine ⟨m :: pre, x, post, by rw [hsplit]; rfl, hxt, hxb, fun e₀ => ?_⟩
+      rw [run_cons_next hs]
+      exact ⟨(hl e₀).1, by simp only [(hl e₀).2, List.cons_append]⟩
     | halt rs res =>
       rw [run_cons_halt hs] at h ⊢
       simp only at h
@@ -144,7 +149,7 @@ theorem run_pluginError {step : S → Stanza → Step S α}
         obtain ⟨hrs, hres, hty⟩ := hyes
         rw [hres] at h
         cases h
-        exact ⟨⟨[], by simp [hrs]⟩, m, List.mem_cons_self, hty, rfl⟩
+        exact ⟨[], m, rest, rfl, hty, rfl, fun e₀ => ⟨rfl, by simp [hrs, run_nil]⟩⟩
 
 /-- Over a prefix, the run either halts at one of its messages (in a state
     satisfying the invariant) or passes through it into a state satisfying the
